@@ -7,7 +7,8 @@ Abstract values (small JSON):
   scalar ::= bool (dtype bool) | int (integer dtypes) | tok (float dtypes)
   dtype  ::= 'bool' 'int8' .. 'uint64' 'float16' 'float32' 'float64' '>i2' .. '>f8'
   layout ::= 'C' | 'F' | 'S' (every other item of the last axis of a larger array) | 'R' (reversed view)
-  key    ::= ['i', z] | ['s', str]
+  key    ::= ['i', z] | ['s', str]         (json case flag 'npkeys': integer keys that fit a NumPy integer dtype are given as
+                                            NumPy integer scalars; z of any magnitude, up to 256 bits / 10^250 in the streams)
   cell   ::= ['none'] | ['int', z] | ['float', tok] | ['str', s]
   edge   ::= {'what': 'tsv_nested', 'v': value} | {'what': 'json_missing' | 'json_empty' | 'tsv_missing' | 'simple_missing' | 'python_missing'}
            | {'what': 'tsv_no_rows', 'delim', 'first', 'excl', 'n'} | {'what': 'bigint', 'w': 0..4, 'neg': b, 'extra': k}
@@ -30,6 +31,9 @@ RULE = ('corpus of boundary cases (minimal inputs of the three repaired defects:
         'length <= 3 (quick) / 4 (thorough) over a 14-character numeric alphabet for _try_make_number; integer '
         'literals of 4300 / 4301 digits (int_max_str_digits); edge inputs outside the statement (missing path, '
         'empty file, table without rows, integer beyond the limit) compared with the model only; '
+        'integer keys, values, cells and cluster ids of every magnitude (2^b - 1, 2^b, 2^b + 1 for b = 7 .. 256, '
+        '10^k +- 1 for k <= 250, random bit lengths <= 256, both signs; keys beyond int64 / uint64 next to other keys), '
+        'integer keys also given as NumPy integer scalars of every integer dtype; '
         'then a seeded random stream of nested dictionaries (depth <= 3), tables over 4-6 fields, '
         'two-column cluster tables and parameter dictionaries. Non-trivial = a dictionary holding an '
         'array, NumPy scalar or nested container / a table with a non-empty row / a non-empty '
@@ -67,7 +71,8 @@ TRUSTED = ['oracles of the theorems (universally quantified records; hypotheses 
            'MODELLED on characters (ASCII; bytes >= 128 of UTF-8 text are copied); the models are tied to CPython by '
            'the number and python cases of the correspondence',
            'CPython int_max_str_digits = 4300 (sys.get_int_max_str_digits() of the interpreter that runs phylib)']
-ASSUMES = ['top-level keys: integers (any sign) and strings that are not optionally-signed digit strings; nested '
+ASSUMES = ['top-level keys: integers (any sign and magnitude; a Python int or a NumPy integer scalar, which is the same '
+           'key under dict equality) and strings that are not optionally-signed digit strings; nested '
            'dictionaries have string keys; the marker keys __ndarray__ / __qbytearray__ are reserved; a dict is '
            'represented by its key-sorted association list (dict equality cannot see insertion order)',
            'numeric dtypes = bool, (u)int8..64, float16/32/64 in either byte order, elements in the range of the '
@@ -226,16 +231,37 @@ def _rand_value(rng, depth):
     if r < 0.80:
         return ['bool', rng.random() < 0.5]
     if r < 0.87:
-        return ['int', rng.choice([0, 1, -1, 10, 2 ** 31, -2 ** 63, 2 ** 64, 10 ** 30, rng.randint(-1000, 1000)])]
+        return ['int', rng.choice([0, 1, -1, 10, 2 ** 31, -2 ** 63, 2 ** 64, 10 ** 30, rng.randint(-1000, 1000),
+                                   _rand_wide_int(rng), _rand_wide_int(rng)])]
     if r < 0.94:
         return ['float', _rand_float_tok(rng)]
     return ['str', _rand_str(rng)]
 
 
+WIDE_BITS = [7, 8, 15, 16, 31, 32, 53, 63, 64, 65, 96, 127, 128, 200, 256]
+WIDE_DEC = [9, 10, 18, 19, 20, 38, 39, 77, 100, 250]
+
+
+def _rand_wide_int(rng):
+    """Integers of every magnitude: around the limits of the machine integer types (2^b - 1, 2^b, 2^b + 1, both
+    signs, b = 7 .. 256), around powers of ten (a digit more / less in the text), and uniform in a random bit
+    length up to 256 (beyond every fixed-width type; Python integers are unbounded, ids can be 128-bit hashes)."""
+    r = rng.random()
+    if r < 0.4:
+        z = 2 ** rng.choice(WIDE_BITS) + rng.choice([-1, 0, 1])
+    elif r < 0.55:
+        z = 10 ** rng.choice(WIDE_DEC) + rng.choice([-1, 0, 1])
+    else:
+        z = rng.getrandbits(rng.randint(1, 256))
+    return -z if rng.random() < 0.45 else z
+
+
 def _rand_key(rng):
     r = rng.random()
-    if r < 0.45:
+    if r < 0.30:
         return ['i', rng.choice([0, 1, 2, 7, 10, 11, 100, 2 ** 40, rng.randint(0, 999), -rng.randint(1, 999), -1])]
+    if r < 0.45:
+        return ['i', _rand_wide_int(rng)]
     return ['s', rng.choice(KEYSTR)]
 
 
@@ -275,7 +301,7 @@ def _rand_cell(rng, simple=False):
     if r < 0.12 and not simple:
         return ['none']
     if r < 0.40:
-        return ['int', rng.choice([0, 1, -1, 7, 10, -12, 2 ** 40, 10 ** 25, rng.randint(-500, 500)])]
+        return ['int', rng.choice([0, 1, -1, 7, 10, -12, 2 ** 40, 10 ** 25, rng.randint(-500, 500), _rand_wide_int(rng)])]
     if r < 0.72:
         if simple:
             return ['float', _rand_float_tok(rng)]
@@ -319,7 +345,7 @@ def _rand_plain(rng, depth):
     if r < 0.5:
         return ['bool', rng.random() < 0.5]
     if r < 0.65:
-        return ['int', rng.choice([0, 1, -1, 384, 2 ** 70, rng.randint(-1000, 1000)])]
+        return ['int', rng.choice([0, 1, -1, 384, 2 ** 70, rng.randint(-1000, 1000), _rand_wide_int(rng)])]
     if r < 0.8:
         t = _rand_float_tok(rng)
         return ['float', t if isinstance(t, list) and t[0] == 'f' else ftok(30000.0)]
@@ -358,6 +384,19 @@ def generate(tier, rng):
     cases.append(_json_case([[['s', '\u00b2'], ['int', 1]]]))                          # fixed: str.isdigit() but not int()
     cases.append(_json_case([[['s', '\u0661\u0662'], ['int', 1]]]))                    # fixed: non-ASCII digits -> int 12
     cases.append(_json_case([[['s', '-\u0663'], ['int', 1]], [['s', '\uff11\uff12'], ['int', 2]]]))
+    # integer keys of every magnitude next to other keys (stage 5): beyond int64 / uint64 / 128 bits, the limits
+    # of each machine type, and the same keys given as NumPy integer scalars (ids taken from np.unique)
+    cases.append(_json_case([[['i', 2 ** 64], ['str', 'big']], [['s', 'name'], ['str', 'x']]]))
+    cases.append(_json_case([[['i', -2 ** 63 - 1], ['list', [['int', 1], ['int', 2]]]], [['i', 12], ['str', 'small']],
+                             [['s', 'n'], ['int', 3]]]))
+    cases.append(_json_case([[['i', z], ['int', j]] for j, z in enumerate(
+        [2 ** 63 - 1, 2 ** 63, 2 ** 64 - 1, 2 ** 64 + 1, -2 ** 63, -2 ** 64, 2 ** 128, -10 ** 100, 2 ** 31, -2 ** 31 - 1, 255, -129])]
+        + [[['s', 'a'], ['int', 2 ** 200]]]))
+    cases.append(_json_case([[['i', z], ['int', j]] for j, z in enumerate(
+        [0, -1, 127, -128, 255, 256, 65535, -32769, 2 ** 32 - 1, -2 ** 31, 2 ** 63 - 1, 2 ** 64 - 1, -2 ** 63, 2 ** 64])]
+        + [[['s', 'a'], ['none']]], npkeys=True))
+    cases.append({'kind': 'simple', 'inp': {'delim': 'tab', 'field': 'group', 'nptypes': False, 'data': [
+        [2 ** 64, ['str', 'good']], [-2 ** 63 - 1, ['int', 2 ** 64]], [2 ** 128 + 1, ['float', ftok(0.5)]], [5, ['int', -2 ** 100]]]}})
     cases.append({'kind': 'python', 'inp': {'items': [['a', ['str', 'he said "hi"']]]}})   # fixed: quoting
     cases.append({'kind': 'python', 'inp': {'items': [['a', ['str', 'back\\slash']]]}})
     cases.append({'kind': 'python', 'inp': {'items': [['a', ['str', 'new\nline']]]}})
@@ -406,7 +445,8 @@ def generate(tier, rng):
 
     if tier == 'search':
         for _ in range(4000):
-            cases.append(_json_case([[_rand_key(rng), _rand_value(rng, 2)] for _ in range(rng.randint(1, 3))]))
+            cases.append(_json_case([[_rand_key(rng), _rand_value(rng, 2)] for _ in range(rng.randint(1, 3))],
+                                    npkeys=rng.random() < 0.2))
         for _ in range(4000):
             c = _rand_table(rng, 4)
             if c:
@@ -447,7 +487,8 @@ def generate(tier, rng):
     nj, nt, ns = (900, 1200, 250) if quick else (18000, 22000, 5000)
     for _ in range(nj):
         cases.append(_json_case([[_rand_key(rng), _rand_value(rng, 3 if rng.random() < 0.3 else 2)]
-                                 for _ in range(rng.randint(0, 5))], reverse=rng.random() < 0.5))
+                                 for _ in range(rng.randint(0, 5))], reverse=rng.random() < 0.5,
+                                npkeys=rng.random() < 0.2))
     for _ in range(nt):
         c = _rand_table(rng, 4 if quick else 6)
         if c:
@@ -488,7 +529,7 @@ def _rand_table(rng, nfields):
 def _rand_simple(rng):
     ids = set()
     for _ in range(rng.randint(0, 7)):
-        ids.add(rng.choice([0, 1, -1, 2 ** 40, rng.randint(-50, 500)]))
+        ids.add(rng.choice([0, 1, -1, 2 ** 40, rng.randint(-50, 500), rng.randint(-50, 500), _rand_wide_int(rng)]))
     ids = list(ids)
     rng.shuffle(ids)
     data = []
@@ -628,6 +669,22 @@ def _mk_cell(np, c, nptypes):
     return c[1]
 
 
+INT_DTYPES = ['int8', 'uint8', 'int16', 'uint16', 'int32', 'uint32', 'int64', 'uint64']
+
+
+def _mk_key(np, key, npkeys):
+    """Top-level key: a str, a Python int, or (npkeys) the same integer as a NumPy integer scalar of one of the
+    dtypes that hold it (chosen by the value, so deterministic); integers beyond uint64 / int64 stay Python ints."""
+    if key[0] == 'i' and npkeys:
+        fits = [dt for dt in INT_DTYPES if INT_RANGE[dt][0] <= key[1] <= INT_RANGE[dt][1]]
+        if fits:
+            k = getattr(np, fits[abs(key[1]) % len(fits)])(key[1])
+            if int(k) != key[1]:
+                raise HarnessError('key materialisation %r' % (key,))
+            return k
+    return key[1]
+
+
 class HarnessError(Exception):
     pass
 
@@ -653,7 +710,7 @@ def _run_case(case):
             from phylib.utils._misc import save_json, load_json
             items = list(reversed(i['items'])) if i.get('reverse') else i['items']
             try:
-                data = {key[1]: _mk(np, v, i.get('reverse')) for key, v in items}
+                data = {_mk_key(np, key, i.get('npkeys')): _mk(np, v, i.get('reverse')) for key, v in items}
             except Exception as e:
                 raise HarnessError(repr(e))
             if len(data) != len(items):
@@ -950,6 +1007,9 @@ def dist(case, obs):
         out.append('json.items=%s' % _bucket(len(i['items'])))
         for key, v in i['items']:
             out.append('json.key=%s' % ('int<0' if key[0] == 'i' and key[1] < 0 else 'int' if key[0] == 'i' else 'str'))
+            if key[0] == 'i':
+                out.append('json.key.size=%s%s' % (_magnitude(key[1]), ' (numpy)' if i.get('npkeys') and _magnitude(
+                    key[1]) != '>64bit' else ''))
             for x in _walk(v):
                 if x[0] == 'arr':
                     n = len(x[4])
@@ -979,6 +1039,8 @@ def dist(case, obs):
     elif k == 'simple':
         out.append('simple.delim=' + i['delim'])
         out.append('simple.rows=%s' % _bucket(len(i['data'])))
+        for key, _ in i['data']:
+            out.append('simple.id.size=' + _magnitude(key))
     elif k == 'python':
         out.append('python.items=%s' % _bucket(len(i['items'])))
     else:
@@ -986,6 +1048,11 @@ def dist(case, obs):
         if len(i['s']) > 300:
             out.append('number.digits=%s' % ('>4300' if sum(ch.isdigit() for ch in i['s']) > LIMIT else '<=4300'))
     return out
+
+
+def _magnitude(z):
+    return ('<=32bit' if -2 ** 31 <= z < 2 ** 31 else '<=int64' if -2 ** 63 <= z < 2 ** 63 else
+            'uint64' if 0 <= z < 2 ** 64 else '>64bit')
 
 
 def _bucket(n):
@@ -1039,6 +1106,18 @@ def _shrink_value(v):
         yield ['float', ['f', 0, 1, -1]]
 
 
+def _smaller_ints(z):
+    """Shrinking candidates of an integer whose size may matter, smallest first: +-1, the powers of two at the
+    limits of the machine integer types below it (2^b and 2^b - 1), the power of two below it, half of it."""
+    sg = 1 if z > 0 else -1
+    a = abs(z)
+    out = [1]
+    for b in (7, 8, 15, 16, 31, 32, 63, 64, 128):
+        out += [2 ** b - 1, 2 ** b]
+    out += [2 ** (a.bit_length() - 1), a // 2]
+    return [sg * x for x in dict.fromkeys(out) if 0 < x < a]
+
+
 def shrink(case):
     k, i = case['kind'], case['inp']
     if k in ('json', 'python'):
@@ -1053,9 +1132,11 @@ def shrink(case):
                     continue
                 yield {'kind': k, 'inp': dict(i, items=items[:d] + [[key, y]] + items[d + 1:])}
             if k == 'json' and key[0] == 'i' and key[1] not in (0, 1, -1):
-                nk = ['i', 1 if key[1] > 0 else -1]
-                if all(str(o[0][1]) != str(nk[1]) for o in items):
-                    yield {'kind': k, 'inp': dict(i, items=items[:d] + [[nk, v]] + items[d + 1:])}
+                for z in _smaller_ints(key[1]):
+                    if all(str(o[0][1]) != str(z) for o in items):
+                        yield {'kind': k, 'inp': dict(i, items=items[:d] + [[['i', z], v]] + items[d + 1:])}
+        if k == 'json' and i.get('npkeys'):
+            yield {'kind': k, 'inp': dict(i, npkeys=False)}
     elif k == 'tsv':
         rows = i['rows']
 
@@ -1091,6 +1172,10 @@ def shrink(case):
         if i['nptypes']:
             yield {'kind': k, 'inp': dict(i, nptypes=False)}
         for d, (key, c) in enumerate(data):
+            if key not in (0, 1, -1):
+                for z in _smaller_ints(key):
+                    if all(o[0] != z for o in data):
+                        yield {'kind': k, 'inp': dict(i, data=data[:d] + [[z, c]] + data[d + 1:])}
             for simpler in (['int', 1], ['str', 'x'], ['float', ['f', 0, 1, -1]]):
                 if c != simpler and c[0] == simpler[0]:
                     yield {'kind': k, 'inp': dict(i, data=data[:d] + [[key, simpler]] + data[d + 1:])}
